@@ -729,9 +729,16 @@ pub fn c17_cases(rng: &mut Rng, tier: &str) -> (Vec<Case>, bool) {
 pub fn c09_cases(rng: &mut Rng, tier: &str) -> (Vec<Case>, bool) {
     let n = if tier == "thorough" { 3000 } else { 300 };
     let mut cases = vec![];
-    let opts = GenOpts { allow_def: false, allow_else_resume: true, ..Default::default() };
     for i in 0..n {
+        // the work bound is stated for programs that call no user function; the one-statement rule for all
+        let with_def = i % 2 == 1;
+        let opts = GenOpts { allow_def: with_def, allow_else_resume: true, ..Default::default() };
         let mut p = program(rng, &opts);
+        if i % 6 == 1 {
+            p.lines.push((3, "DEF FNQ(X) = X + 1: PRINT \"ONE\": PRINT \"TWO\"".to_string()));
+            p.lines.push((4, "DEF FNP(X) = X: DEF FNO(Y) = Y: DEF FNM(Z) = Z: PRINT \"after defs\"".to_string()));
+            p.lines.sort_by_key(|l| l.0);
+        }
         if i % 5 == 0 {
             // non-terminating programs
             p.lines.push((935, "GOTO 10".to_string()));
@@ -765,13 +772,29 @@ pub fn c09_cases(rng: &mut Rng, tier: &str) -> (Vec<Case>, bool) {
             }
             match st.as_str() {
                 "Running" => {
-                    w.op("snap");
-                    w.op("cont");
+                    if rng.chance(1, 8) {
+                        // the host stops the program between two statements, then resumes it
+                        w.op("break");
+                        w.op("take");
+                        w.op("reads");
+                        w.start("CONT");
+                    } else {
+                        w.op("snap");
+                        w.op("cont");
+                    }
                 }
                 "AwaitingInput" => {
                     let r = replies[nr.min(replies.len() - 1)].clone();
                     nr += 1;
                     w.reply(&r);
+                }
+                "Idle" if steps < 140 && w.replies.last().map(|_| true).unwrap_or(false) && {
+                    let s = w.op("snap");
+                    !s.contains(" ; bp=- ; ")
+                } => {
+                    // stopped at a STOP: resume
+                    w.op("reads");
+                    w.start("CONT");
                 }
                 _ => break,
             }
@@ -780,7 +803,10 @@ pub fn c09_cases(rng: &mut Rng, tier: &str) -> (Vec<Case>, bool) {
         // the interpreter is idle again: the host keeps control
         w.start("PRINT 1");
         w.op("take");
-        let checks = vec![format!("calls-bounded {}", 1 + max_if), format!("reads-bounded 4 40 {}", max_len), "err-then-idle".to_string(), "traced-calls".to_string()];
+        let mut checks = vec![format!("calls-bounded {}", 1 + max_if), "err-then-idle".to_string(), "traced-calls".to_string()];
+        if !with_def {
+            checks.push(format!("reads-bounded 4 40 {}", max_len));
+        }
         cases.push(case_from(w, checks, feature_tag(&p), true, p.text().replace('\n', " | ")));
     }
     (cases, false)
